@@ -11,11 +11,13 @@ PATHS = ("docs_for_query", "query.docs", "unlimited", "limited", "unscored", "so
 
 def build_cases(run, rng, nworlds, nqueries, ndocs=(3, 7), depth=2, nletters=2, blocklimit=None,
                 paths=PATHS, scored_only=False, ops=None, storage=None, cmp="members", limits=(1, 2, 3),
-                kinds=None, alt=False, qgen=None, maxtoks=5):
+                kinds=None, alt=False, qgen=None, maxtoks=5, worldgen=None):
     cases, meta = [], []
     for wi in range(nworlds):
         n = rng.randrange(ndocs[0], ndocs[1] + 1)
         adocs = {"k%d" % i: world.rand_doc(rng, nletters=nletters, boosts=(wi % 3 == 2), maxtoks=maxtoks) for i in range(n)}
+        if worldgen:
+            adocs, qgen = worldgen(rng, n)
         plan = world.rand_plan(rng, adocs.keys())
         wcfg = {"storage": storage or rng.choice(["ram", "file"]),
                 "blocklimit": blocklimit if blocklimit else rng.choice([None, 1, 2, 3]), "compound": rng.random() < 0.7}
@@ -207,6 +209,56 @@ def replay_world(run, rp, check):
     report(run, run.pid, cases, meta, rejects, check)
 
 
+def near_phrase_world(rng, n):
+    """Documents written around one phrase: its words in order with the middle word repeated and a varying
+    number of other tokens (or removed stop words) in between, also reversed or with a word missing - so that
+    the distances lie on both sides of every slop.  Queries: the phrase and its parts with slop 1..3, as
+    Phrase, Sequence and nested span queries."""
+    f = rng.choice(world.TEXT_FIELDS)
+    pool = [[1], [2], [1, 2], [2, 1], [1, 1], [2, 2]]
+    words = rng.sample(pool, 3) if rng.random() < 0.8 else [pool[0], pool[1], pool[0]]
+    others = [t for t in pool if t not in words] or [[2, 2]]
+    filler = lambda: [0] if rng.random() < 0.25 else rng.choice(others)
+    adocs = {}
+    for i in range(n):
+        toks = []
+        seq = list(words)
+        if rng.random() < 0.2:
+            seq.reverse()
+        if rng.random() < 0.15:
+            seq.pop(rng.randrange(len(seq)))
+        for wi, w in enumerate(seq):
+            reps = rng.choice([1, 1, 2, 3]) if 0 < wi < len(seq) - 1 else rng.choice([1, 1, 1, 2])
+            for r in range(reps):
+                toks.append(w)
+                if r + 1 < reps and rng.random() < 0.3:
+                    toks.append(filler())
+            if wi + 1 < len(seq):
+                toks += [filler() for _ in range(rng.choice([0, 0, 1, 1, 2, 3]))]
+        d = world.rand_doc(rng)
+        d["t"][f] = toks[:10]
+        adocs["k%d" % i] = d
+
+    def qgen(r):
+        c = r.random()
+        slop = r.choice([1, 2, 2, 3])
+        term = lambda w: {"op": "term", "f": f, "t": w, "b4": 4}
+        if c < 0.4:
+            return {"op": "phrase", "f": f, "words": list(words), "slop": slop, "b4": 4}
+        if c < 0.55:
+            i = r.randrange(0, 2)
+            return {"op": "phrase", "f": f, "words": words[i:i + 2], "slop": slop, "b4": 4}
+        if c < 0.7:
+            return {"op": "sequence", "kids": [term(w) for w in words], "slop": slop, "ordered": r.random() < 0.7}
+        if c < 0.85:
+            return {"op": "spannear2", "kids": [term(w) for w in words], "slop": slop, "ordered": r.random() < 0.7,
+                    "mindist": r.choice([1, 1, 0, 2])}
+        return {"op": "spannear", "a": {"op": "spannear", "a": term(words[0]), "b": term(words[1]), "slop": slop,
+                                        "ordered": True, "mindist": 1},
+                "b": term(words[2]), "slop": r.choice([1, 2, 3]), "ordered": r.random() < 0.7, "mindist": 1}
+    return adocs, qgen
+
+
 def check(run):
     quick = run.tier == "quick"
     rng = random.Random(run.seed + 101)
@@ -221,6 +273,10 @@ def check(run):
                               qgen=lambda r: world.rand_span_query(r, r.randrange(1, 4)))
     rejects = qobs.judge(run, cases, name="QueryCheck-spans")
     report(run, "C01", cases, meta, rejects, "c01-spans")
+    # phrases and spans at the edge of their slop
+    cases, meta = build_cases(run, rng, 8 if quick else 80, 16 if quick else 24, ndocs=(4, 9), worldgen=near_phrase_world)
+    rejects = qobs.judge(run, cases, name="QueryCheck-nearphrase")
+    report(run, "C01", cases, meta, rejects, "c01-nearphrase")
     # nested (parent / child) queries
     # (Query.docs() evaluates over the whole index at once, where "the parent before a document" can lie in
     # another segment; documents without a parent in their own segment only exist in generated data, so
